@@ -125,7 +125,7 @@ EXTRA = {
  "C03": " Added: `scale`/`named` structured graphs up to 300 nodes and a link-length alphabet containing 0; `inherit` (every measure a Network subclass inherits, on objects of 21 subclass drivers - fresh and after each public mutator - vs the plain Network with the same adjacency, weights and link attributes); a signed link attribute for the strength-type measures; pagerank(use_directed=False).",
  "C04": " Added: `scale`; directed InteractingNetworks with node lists mapped element by element; recurrence networks with fixed rate / fixed local rate on tie-rich series.",
  "C05": " Added: sparse inputs with stored zeros, save-after-change histories (weights, adjacency), a signed link attribute, igraph objects with edges in another order, copy + in-place weight update, `scale` (N >= 182)." + FORMS,
- "C06": " Added: family `two_objects` (A, another object B of the same class, A again - queries and every mutator - vs A alone) and fingerprints of every data object (grid, ClimateData) handed to a constructor through that object's own public queries; every observed array is snapshotted at observation time (aliasing with library buffers).",
+ "C06": " Added: family `two_objects` (A, another object B of the same class, A again - queries and every mutator - vs A alone) and fingerprints of every data object (grid, ClimateData) handed to a constructor through that object's own public queries; every observed array is snapshotted at observation time (aliasing with library buffers); family `weighted_n`: weighted paths whose end-to-end distance is exactly N (with and without unreachable pairs), every ordered history q1 then all path queries vs pristine objects.",
  "C07": " Added: `scale` (130-300 states), `normalize=True`, and re-thresholding of every explored recurrence network through the matching public setter (the adaptive one also with an explicit processing order); `offset` (trajectories far from the origin and close to each other)." + FORMS,
  "C08": " Added: `long` (scan lines beyond 256 cells) and float32-boundary thresholds in sequential mode; `objects` (recurrence networks, joint plots and joint networks, fresh and after each mutator, vs run-length counts of their own matrix); `rqa_summary` with l_min != v_min; `embedded_mv` (NaN samples under delay embedding).",
  "C09": " Added: `scale` (129-209 nodes, non-local bands, coincident nodes); the directed Hilbert network vs a fresh object after every setter." + FORMS,
